@@ -943,6 +943,50 @@ fn gen_air_alias(rng: &mut Rng, tab: &[(i128, u32)]) -> Hist {
     Hist { upd: false, d1090: false, reference: None, reps }
 }
 
+/// a report delivered late across a silence: reports of ONE parity only before the gap (so no position is
+/// established, and the 50 km gate has nothing to compare with), 12-170 s of silence, then the burst after the
+/// gap — with its first report (same parity) delivered BEFORE the last report heard before the gap (two
+/// neighbours of the heard sequence in swapped arrival order, time stamps intact).  The per-parity slot must
+/// keep (message, time stamp) together: a slot holding the old message under the new time stamp pairs it with
+/// the next report of the other parity, 12-170 s of flight apart.  1 in 4: both parities before the gap (the
+/// established-track control).
+fn gen_late(rng: &mut Rng, tab: &[(i128, u32)]) -> Hist {
+    let base = base_ticks(rng);
+    let addr = random_addr(rng, &[]);
+    let start = random_start(rng, tab);
+    let kt = if rng.chance(2, 3) { MAX_KT - rng.f64() * 100.0 } else { random_kt(rng) };
+    let f = Flight { addr, legs: vec![leg_from(base as f64 / TICKS as f64, start, random_brg(rng), kt, false, false)], df18: false };
+    let q = rng.below(2) as u32;
+    let established = rng.chance(1, 4);
+    let n1 = 1 + rng.below(4) as usize;
+    let mut reps = vec![];
+    let mut t = base;
+    for k in 0..n1 {
+        let p = if established && k % 2 == 1 { q ^ 1 } else { q };
+        reps.push(f.report(tab, t, p));
+        t += rng.range(TICKS * 2 / 5, 3 * TICKS);
+    }
+    // the last report heard before the gap has parity q
+    reps.push(f.report(tab, t, q));
+    let gap = match rng.below(4) {
+        0 => rng.range(12 * TICKS, 20 * TICKS),
+        1 => rng.range(20 * TICKS, 60 * TICKS),
+        _ => rng.range(12 * TICKS, 170 * TICKS),
+    };
+    t += gap;
+    let n2 = 2 + rng.below(5) as usize;
+    let mut p = q;
+    for _ in 0..n2 {
+        reps.push(f.report(tab, t, p));
+        p ^= 1;
+        let hi = if rng.chance(1, 3) { 9 * TICKS } else { 2 * TICKS };
+        t += rng.range(TICKS * 2 / 5, hi);
+    }
+    let k = reps.len() - n2; // first report after the gap
+    reps.swap(k - 1, k);
+    Hist { upd: false, d1090: false, reference: None, reps }
+}
+
 /// surface zone sizes at a surface report's recovered position: (Dlat, Dlon) in degrees
 fn surf_zone(tab: &[(i128, u32)], p: u32, a: i64, b: i64) -> (f64, f64) {
     let e = encode(tab, 19, p, a, b);
@@ -1228,6 +1272,10 @@ pub fn run(out: &mut Out, rng: &mut Rng, thorough: bool) {
     for _ in 0..300 * scale {
         let h = gen_air_alias(rng, &tab);
         do_hist(out, rng, &tab, &h, "air-alias");
+    }
+    for _ in 0..200 * scale {
+        let h = gen_late(rng, &tab);
+        do_hist(out, rng, &tab, &h, "late");
     }
     for _ in 0..500 * scale {
         let h = gen_arrival(rng, &tab, false, false, thorough);
